@@ -104,7 +104,14 @@ fn check_for_boolean_directive(
 
     let mut first_line = true;
 
-    for line in code[..subject_pos + 1].lines().rev()
+    /* Include the whole first character of the subject, which may be longer than one byte. */
+    let subject_end = match code.get(subject_pos..).and_then(|rest| rest.chars().next())
+    {
+        Some(first_char) => subject_pos + first_char.len_utf8(),
+        None => return false,
+    };
+
+    for line in code[..subject_end].lines().rev()
     {
         if first_line
         {
